@@ -277,7 +277,118 @@ def _judge_sharp(c, errs):
     return None
 
 
-STREAMS = [s10_windows, s10_stacking, s10_sharp]
+def s10_generated(ctx):
+    """translator validation: the REGENERATED validation_method of UnderlappingSnapValidator and TargetAreaSnapValidator (compiled into
+    gen_c10, exact squared distances) vs the real methods, with the under/overlap decision and the candidate test scripted on both sides"""
+    import_fractopo()
+    import math
+
+    import geopandas as gpd
+    from shapely.geometry import LineString, Point, box
+
+    import fractopo.tval.trace_validators as tv
+    from harness.common import area_rows, enc, line as wline, lines as wlines, rng_for
+
+    res = StreamResult("S10-generated", rule="regenerated UnderlappingSnapValidator.validation_method (both loops, well-snapped skip, window, first hit, threaded class "
+                       "attribute, ValueError branch) and TargetAreaSnapValidator.validation_method (Lean, compiled) vs the real methods: a trace with ends 0.5 / 1.05 / 1.2 / 3 x snap "
+                       "from 1..3 candidates (also collinear overlapping ones), is_underlapping scripted True / False / None per candidate; ends 0.5 / 1.0 / 1.2 / 1.6 / 3 x snap "
+                       "from the boundary of 1..2 area rows with the candidate test scripted per row; non-trivial = the validator fails or raises")
+    if ctx.gen is None:
+        res.note = "gen_c10 not built (a generated module is broken): skipped"
+        res.skipped["generated_driver_not_built"] = 1
+        return res
+    rng = rng_for(ctx.seed, "S10g")
+    reqs, cases = [], []
+    for _ in range(budget(ctx.tier, 300, 5000)):
+        t = rng.choice([0.01, 0.1])
+        m = 1.1
+        # the validated trace: from (0, 0) upwards; candidates are horizontal lines near its two ends
+        top = float(rng.randint(3, 8))
+        geom = [(0.0, 0.0), (0.0, top)]
+        cands, script = [], []
+        for _ in range(rng.randint(1, 3)):
+            g = rng.choice([0.5, 1.05, 1.2, 3.0, 0.0]) * t
+            where = rng.choice(["bottom", "top", "far"])
+            if where == "bottom":
+                y = -g
+            elif where == "top":
+                y = top + g
+            else:
+                y = top + 40.0
+            x0 = -float(rng.randint(1, 5))
+            cands.append([(x0, y), (x0 + 10.0, y)])
+            script.append(rng.choice(["1", "0", "n"]))
+        if rng.random() < 0.15:  # a collinear candidate overlapping the trace: None from the decision means STACKED, not ValueError
+            gg = rng.choice([1.05, 1.05, 3.0]) * t
+            cands.append([(0.0, 1.0), (0.0, 2.0), (2.0, 2.0), (2.0, top + gg), (-2.0, top + gg)])  # shares (0 1, 0 2) with the trace, passes over its top end
+            script.append(rng.choice(["n", "n", "1"]))
+        if len({tuple(c) for c in cands}) < len(cands):
+            continue
+        err0 = rng.choice(["UNDERLAPPING SNAP", "OVERLAPPING SNAP", "STACKED TRACES"])
+        g_ls = LineString(geom)
+        ov = [g_ls.overlaps(LineString(c)) for c in cands]
+        cases.append(("underlap", t, m, geom, cands, script, err0))
+        reqs.append(f"underlap t={rat(t)} m={rat(m)} geom={wline(geom)} cands={wlines(cands)} ul={','.join(script)} ov={','.join(str(int(b)) for b in ov)} err={enc(err0)}")
+    for _ in range(budget(ctx.tier, 200, 3000)):
+        t = rng.choice([0.01, 0.1])
+        m, a = 1.1, 2.5
+        g1 = rng.choice([0.5, 1.0, 1.2, 1.6, 2.5, 3.0, 10.0]) * t
+        g2 = rng.choice([0.5, 1.2, 2.5, 3.0, 50.0]) * t
+        geom = [(-8.0 + g1, float(rng.randint(-5, 5))), (float(rng.randint(-3, 3)), 8.0 - g2)]
+        areas = [box(-8.0, -8.0, 8.0, 8.0)]
+        if rng.random() < 0.4:
+            areas.append(box(-8.0 - rng.choice([0.0, 1.2 * t, 5.0]), -9.0, 9.0, 9.0))
+        cand = [rng.random() < 0.7 for _ in areas]
+        cases.append(("areaval", t, m, a, geom, areas, cand))
+        reqs.append(f"areaval t={rat(t)} m={rat(m)} a={rat(a)} geom={wline(geom)} areas={area_rows(areas)} cand={','.join(str(int(b)) for b in cand)}")
+    resps = ctx.gen.parallel(reqs)
+    orig_ul = tv.is_underlapping
+    orig_cand = tv.TargetAreaSnapValidator.is_candidate_underlapping
+    cls = tv.UnderlappingSnapValidator
+    orig_err = cls.ERROR
+    try:
+        for c, req, resp in zip(cases, reqs, resps):
+            res.evaluations += 1
+            if c[0] == "underlap":
+                _, t, m, geom, cands, script, err0 = c
+                c_ls = [LineString(x) for x in cands]
+
+                def scripted(geom_, trace, endpoint, st, stm, _c=c_ls, _s=script):
+                    k = next(i for i, x in enumerate(_c) if x.equals(trace))
+                    return {"1": True, "0": False, "n": None}[_s[k]]
+
+                tv.is_underlapping = scripted
+                cls.ERROR = err0
+                try:
+                    ok = cls.validation_method(LineString(geom), gpd.GeoSeries(c_ls), t, m)
+                    want = f"ok={int(bool(ok))} err={enc(cls.ERROR)}"
+                except ValueError:
+                    want = "raise=ValueError"
+                res.nontrivial += int(not want.startswith("ok=1"))
+            else:
+                _, t, m, a, geom, areas, cand = c
+
+                def scripted_c(endpoint, geom_, area_polygon, snap_threshold, _a=areas, _c=cand):
+                    k = next(i for i, x in enumerate(_a) if x.equals(area_polygon))
+                    return _c[k]
+
+                tv.TargetAreaSnapValidator.is_candidate_underlapping = staticmethod(scripted_c)
+                ok = tv.TargetAreaSnapValidator.validation_method(LineString(geom), gpd.GeoDataFrame(geometry=areas), t, m, a)
+                want = f"ok={int(bool(ok))}"
+                res.nontrivial += int(not ok)
+            res.distribution[c[0] + ":" + want] = res.distribution.get(c[0] + ":" + want, 0) + 1
+            if resp.strip() != want:
+                res.disagreements.append(Disagreement("S10-generated", {"stream": "S10-generated", "request": req}, resp.strip(), want, None,
+                                                      "regenerated validator (Lean) and the Python method disagree: translator semantics wrong"))
+    finally:
+        tv.is_underlapping = orig_ul
+        tv.TargetAreaSnapValidator.is_candidate_underlapping = staticmethod(orig_cand)
+        cls.ERROR = orig_err
+    res.samples = [{"request": reqs[0][:200], "response": resps[0][:200]}]
+    return res
+
+
+STREAMS = [s10_windows, s10_stacking, s10_sharp, s10_generated]
 
 
 def replay_finding(ctx, k):
@@ -293,6 +404,9 @@ def replay_finding(ctx, k):
 def replay(ctx, stream, case):
     from shapely.geometry import LineString, Polygon
 
+    if stream == "S10-generated":
+        r = s10_generated(ctx)
+        return r.disagreements[0] if r.disagreements else None
     errs = validate(([LineString(g).wkt for g in case["geoms"]], case["t"], Polygon(case["area"]).wkt))
     if stream == "S10-stacking":
         return _judge_stacking(case, errs)
